@@ -9,7 +9,7 @@ value is an exact linear term and each assertion is a solver query."""
 from engine.ctx import exc_label
 
 FUNCTIONS = ['bycycle.cyclepoints.phase.extrema_interpolated_phase', 'bycycle.cyclepoints.phase._merge_phases']
-BOUNDS = {'quick': 'signal length N <= 9, 2..4 alternating extrema, midpoints supplied or None, optionally a leading / trailing midpoint outside the extrema (N <= 8, <= 3 extrema)',
+BOUNDS = {'quick': 'signal length N <= 9, 2..4 alternating extrema, midpoints supplied (both, rises only, decays only) or None, optionally a leading / trailing midpoint outside the extrema (N <= 8, <= 3 extrema)',
           'thorough': 'signal length N <= 14, 2..6 alternating extrema, midpoints supplied or None'}
 OUTSIDE = 'longer arrays; IEEE rounding inside np.interp (exact reals are used)'
 STUBS = []
@@ -29,6 +29,10 @@ def configs(tier):
                     out.append({'n': n, 'k': k, 'first': first, 'mid': mid, 'lead': False, 'trail': False})
                     if n == 6 and k == 2:
                         out.append({'n': n, 'k': k, 'first': first, 'mid': mid, 'lead': False, 'trail': False, 'dtype': 'int'})
+                # only one kind of midpoint supplied (the two are independent optional arguments)
+                if k <= 3 and n <= (7 if tier == 'quick' else 9):
+                    for only in ('rises', 'decays'):
+                        out.append({'n': n, 'k': k, 'first': first, 'mid': True, 'lead': False, 'trail': False, 'only': only})
                 # the supplied set may also start / end with a midpoint (decay before the first trough, ...)
                 if k <= 3 and n <= (8 if tier == 'quick' else 10):
                     for lead, trail in ((True, False), (False, True), (True, True)):
@@ -81,6 +85,10 @@ def run(ctx, cfg):
             ctx.assume(m <= n - 1)
             trail_pos = ctx.toint(m)
             (rises if kinds[-1] == 'trough' else decays).append(trail_pos)
+    if cfg.get('only') == 'rises':
+        decays = None
+    elif cfg.get('only') == 'decays':
+        rises = None
     sig = np.zeros(n, dtype=int) if cfg.get('dtype') == 'int' else np.zeros(n)      # only its length may matter
     try:
         pha = ph.extrema_interpolated_phase(
